@@ -48,6 +48,9 @@ CHECKS['C12'] = ('other', 'critical_path() executed symbolically over every hier
                  'Bounded: <=4 tasks quick / 5 thorough; quantities real in [0,12] (LRA). Exact rational arithmetic stands for binary64 except in the FP harness. Trusted: CPython, z3, symx, the 40-line reference model.')
 CHECKS['C10'] = ('model_checking', 'Every invariant state with one source WBS and outside tasks linked to members (ids symbolic, so an outside id may equal a member id) x clone() / subtree(selection): structural comparison of the copy, source snapshot unchanged, then one arbitrary mutation on source or copy must leave the other side unchanged.', '6 C10', GRAPH_NOTE)
 
+CHECKS['C20'] = ('other', 'The real text renderers are executed on strings of unbounded symbolic length (names, resources, custom values, resource names); every width comparison inside TextTable is a solver decision; on the resulting rope the solver decides that all lines have equal width and every column equal cell width (LIA over lengths, unsat = aligned for all lengths), plus line count, depth-first order, 3-spaces-per-level indentation, link/parent cells with the (external) mark, and one usage-table line per day.', '6 C20',
+                 'Bounded: <=3 tasks quick / 4 thorough + one outside task; field selections, themes and entry points from a menu; string lengths unbounded. Stubs: builtin len shadowed in pjplan.utils/pjplan.task; str * SymInt yields a pad token. Trusted: CPython str methods move the opaque tokens unchanged (native replay validates), z3, symx.')
+
 NOT_YET = {
 }
 
